@@ -2,3 +2,46 @@
 #![allow(unused_imports, dead_code)]
 use super::*;
 pub use super::kalman::verif_hooks as kalman;
+
+// ---------------------------------------------------------------- C05 (np_algo_h)
+pub use super::{InternalMeasurement, InternalSourceController};
+
+/// Keeps the receiving half of the wrapper's channel alive (crate-private message type).
+pub struct SystemRxH<M>(tokio::sync::mpsc::UnboundedReceiver<(ClockId, WrapperMessage<M>)>);
+
+/// The real two-way wrapper around `inner` (same construction as `TimeSyncControllerWrapper::add_source`),
+/// with a fresh channel whose receiver is handed back to the caller.
+pub fn twoway_wrapper<T: InternalSourceController<MeasurementDelay = NtpDuration>>(
+    id: ClockId,
+    inner: T,
+) -> (TwoWaySourceControllerWrapper<T>, SystemRxH<T::SourceMessage>) {
+    let (tx, rx) = tokio::sync::mpsc::unbounded_channel();
+    (
+        TwoWaySourceControllerWrapper {
+            id,
+            inner: Arc::new(Mutex::new(inner)),
+            last_outgoing_measurement: None,
+            messages_for_system: tx,
+        },
+        SystemRxH(rx),
+    )
+}
+/// The real one-way wrapper around `inner` (same construction as `add_one_way_source`).
+pub fn oneway_wrapper<T: InternalSourceController<MeasurementDelay = ()>>(
+    id: ClockId,
+    inner: T,
+) -> (OneWaySourceControllerWrapper<T>, SystemRxH<T::SourceMessage>) {
+    let (tx, rx) = tokio::sync::mpsc::unbounded_channel();
+    (
+        OneWaySourceControllerWrapper {
+            id,
+            inner: Arc::new(Mutex::new(inner)),
+            messages_for_system: tx,
+        },
+        SystemRxH(rx),
+    )
+}
+pub fn twoway_has_outgoing<T: InternalSourceController<MeasurementDelay = NtpDuration>>(w: &TwoWaySourceControllerWrapper<T>) -> bool {
+    w.last_outgoing_measurement.is_some()
+}
+pub use super::InternalTimeSyncController;
